@@ -154,6 +154,51 @@ pub fn run(args: &Args) {
       out.found("C01", &format!("superlinear:{}", shape), shape, json!({"meta": {"shape": shape, "ext": "tsx"}, "bytes": [small.len(), large.len()], "seconds": [a.secs, b.secs]}));
     }
   }
+  // ---- nesting: the same nested expression at depth d and 2d inside the places rules treat specially.  A rule that
+  // walks a subtree again from a handler of every node of it doubles its work per level: 2^d.  Twice the depth may cost
+  // a small multiple, not a power.
+  {
+    let nestings: Vec<(&str, Box<dyn Fn(usize) -> String>)> = vec![
+      ("calls", Box::new(|d| format!("{}0{}", rep("f(", d), rep(")", d)))),
+      ("method-calls", Box::new(|d| format!("{}0{}", rep("this.m(", d), rep(")", d)))),
+      ("arrays", Box::new(|d| format!("{}0{}", rep("[", d), rep("]", d)))),
+      ("conditionals", Box::new(|d| format!("{}0{}", rep("(a ? b : ", d), rep(")", d)))),
+      ("arrows", Box::new(|d| format!("{}0", rep("() => ", d)))),
+      ("templates", Box::new(|d| format!("{}0{}", rep("`${", d), rep("}`", d)))),
+      ("objects", Box::new(|d| format!("{}0{}", rep("({ a: ", d), rep(" })", d)))),
+      ("new-calls", Box::new(|d| format!("{}0{}", rep("new F(", d), rep(")", d)))),
+      ("awaited-calls", Box::new(|d| format!("{}0{}", rep("g(await ", d), rep(")", d)))),
+    ];
+    let wrappers: &[(&str, &str, &str)] = &[
+      ("statement", "x = ", ";"),
+      ("derived-constructor", "class A extends B { constructor() { ", "; super(); } }"),
+      ("getter", "const o = { get g() { return ", "; } };"),
+      ("class-field", "class C { p = ", "; static { q = 1; } }"),
+      ("async-loop", "async function h() { for (const k of ks) { await ", "; } }"),
+      ("generator", "function* gen() { yield ", "; }"),
+      ("switch-case", "switch (s) { case 1: ", "; break; default: }"),
+      ("try-finally", "try { ", "; } catch (e) { } finally { }"),
+      ("jsx-attribute", "const j = <div a={", "} />;"),
+      ("default-parameter", "function d(p = ", ") { return p; }"),
+    ];
+    for (nname, mk) in &nestings {
+      for (wname, pre, post) in wrappers {
+        if *nname == "awaited-calls" && *wname != "async-loop" {
+          continue;
+        }
+        let (d1, d2) = (13usize, 26usize);
+        let (s1, s2) = (format!("{}{}{}\n", pre, mk(d1), post), format!("{}{}{}\n", pre, mk(d2), post));
+        let a = run_probe(&probe, "tsx", &s1, limit);
+        let b = run_probe(&probe, "tsx", &s2, Duration::from_secs(60));
+        let shape = format!("{}-in-{}", nname, wname);
+        out.eval(&format!("nest:{}", shape), true, json!({"shape": shape, "depths": [d1, d2], "seconds": [a.secs, b.secs], "status": [a.status, b.status]}));
+        out.count(&format!("nesting-in={}", wname));
+        if a.status == "ok" && (b.status == "timeout" || (b.status == "ok" && b.secs > 2.0 && b.secs > 20.0 * a.secs.max(0.05))) {
+          out.found("C01", &format!("exponential-in-depth:{}", shape), &shape, json!({"meta": {"shape": shape, "ext": "tsx", "src": s2.chars().take(300).collect::<String>()}, "depths": [d1, d2], "seconds": [a.secs, b.secs], "status": b.status}));
+        }
+      }
+    }
+  }
   // ---- depth
   let depths: Vec<usize> = args.opts.get("depths").map(|s| s.split('+').filter_map(|x| x.parse().ok()).collect()).unwrap_or_else(|| vec![150, 20_000]);
   for d in depths {
